@@ -110,6 +110,14 @@ Proof. exact (single_recipient (proj1 ob_connect_switch) (proj2 ob_tls_scheme) o
                T05_precedence T05_pac_first_entry). Qed.
 Print Assumptions T05_single_recipient.
 
+(* The run-time oracle compares the observed socket events with spec_exchange; the model's trace is that trace. *)
+Theorem T05_exchange_is_spec : forall cfg rules t attempts failures,
+  cfg_wf cfg -> exchange cfg rules t attempts failures = spec_exchange cfg rules t attempts failures.
+Proof. exact (exchange_is_spec (proj1 ob_connect_switch) (proj2 ob_tls_scheme) ob_transport_socks
+               (conj (proj1 ob_shared_functions) (proj1 (proj2 ob_shared_functions)))
+               T05_precedence T05_pac_first_entry). Qed.
+Print Assumptions T05_exchange_is_spec.
+
 (* Every proxy type the PAC parser knows is DIRECT, supported by both consumers, or rejected (generic form of
    the repair of finding F6: it also covers a type added to parseMode later). *)
 Theorem T05_every_pac_type_accounted : forallb mode_accounted mode_consts = true.
